@@ -479,6 +479,16 @@ def check_idx_pairing(P, R, rid):
             rest = kw['idx'].value.id if isinstance(kw['idx'], ast.Subscript) and isinstance(kw['idx'].value, ast.Name) else None
             child = kw['children'].elts[0].id if isinstance(kw['children'].elts[0], ast.Name) else None
             ok = any(isinstance(st, ast.Assign) and src(st.targets[0]) == f'{child}[KEY]' and src(st.value) == rest for st in walk_shallow(sp.node))
+    if not mk:
+        # in-place form: pnode[IDX] = rest[0]; pnode[OFFSET:] = [node]; node[KEY] = rest
+        idx_st = [st for st in walk_shallow(sp.node) if isinstance(st, ast.Assign) and slot_name(st.targets[0]) == 'IDX' and src(st.value).endswith('[0]')]
+        ch_st = [st for st in walk_shallow(sp.node) if isinstance(st, ast.Assign) and isinstance(st.targets[0], ast.Subscript) and isinstance(st.targets[0].slice, ast.Slice)
+                 and src(st.targets[0].slice.lower) == 'OFFSET' and isinstance(st.value, ast.List) and len(st.value.elts) == 1]
+        ok = False
+        if idx_st and ch_st:
+            rest = idx_st[0].value.value.id if isinstance(idx_st[0].value, ast.Subscript) and isinstance(idx_st[0].value.value, ast.Name) else None
+            child = ch_st[0].value.elts[0].id if isinstance(ch_st[0].value.elts[0], ast.Name) else None
+            ok = any(isinstance(st, ast.Assign) and src(st.targets[0]) == f'{child}[KEY]' and src(st.value) == rest for st in walk_shallow(sp.node))
     R.ob(rid, sp, mk[0] if mk else sp.node, ok, text='_split: new node idx = rest[0], children = [old node with KEY = rest]', detail='' if ok else
          'the split node\'s index does not name its single child\'s key')
     n_sites += 1
